@@ -4,7 +4,7 @@ PROP = dict(
     level="exploration",
     stages=[
         # exhaustive small scopes + rapidcheck against an in-harness reference written from RFC 4648 / RFC 3986 / the C escape syntax
-        dict(name="c11_text", src="harness/c11_text.cc", shards_quick=8, shards_thorough=16, timeout_quick=400, timeout_thorough=1500),
+        dict(name="c11_text", src="harness/c11_text.cc", deps=["harness/c11/ambient.hh"], shards_quick=8, shards_thorough=16, timeout_quick=400, timeout_thorough=1500),
         # Hypothesis cross-check against Python's base64 / binascii / codecs / urllib.parse through a serve shim
         dict(name="c11_py", kind="pydriver", driver="oracle/c11_text.py", shim="shim/c11_shim.cc", deps=["shim/shim.hh"],
              shards_quick=8, shards_thorough=16, timeout_quick=400, timeout_thorough=1500),
@@ -32,7 +32,17 @@ PROP = dict(
           "invalid text, rot13, escape_url both flags, escape_controls both modes, escape_quotes, render/parse_netloc) 100 (inputs up to 64 "
           "bytes, mostly) or 10 times on its own input (uniform bytes, special-character alphabet, or three byte values of the thread's own) "
           "and comparing with results fixed before the threads start. "
-          "Non-trivial: every concurrent-callers case; decode inputs containing padding or a character outside the alphabet; encode inputs with length mod 3 != 0; "
+          "Sub-ranges (placed): the (pointer, size) overloads of rot13 / base64_encode / base64_decode on ranges of every size 0..40 at every "
+          "misalignment 0..15 (enumerated for four contents x two alphabets; random sizes 0..24 mostly, up to 300), each both as a slice of a larger "
+          "buffer whose neighbouring bytes are letters / alphabet characters (a result that depends on bytes outside the range fails a value clause) "
+          "and in an exactly sized heap block (ASan reports any read past the range); the range is also taken as a base64 text (valid or not) and a "
+          "valid encoding placed the same way must decode back. Ambient state (ambient): everything phosg returns for one (text, host, port) - base64 "
+          "encode / decode (three alphabet arguments, the text itself as an encoding), rot13, the escapers with both flags, render_netloc / parse_netloc - "
+          "collected under (1) a global C++ locale whose numpunct groups digits by 3 with ',', (2) one grouping by 1-2 with '.' and errno = ERANGE, "
+          "(3) the C.UTF-8 C locale with errno = EINVAL, and compared with the references (base64, rot13, netloc) or with the call under untouched "
+          "state that first passed the complete oracle (escapers); enumerated for 14 port classes x 4 hosts x 5 texts x 3 states, random otherwise; the "
+          "previous locales are restored after every case. "
+          "Non-trivial: every concurrent-callers case; placed cases with a letter in the range at an address that is not 8-byte aligned; ambient cases with a port >= 1000; decode inputs containing padding or a character outside the alphabet; encode inputs with length mod 3 != 0; "
           "rot13 inputs containing an ASCII letter; escaper inputs in which at least one byte must be escaped; netloc pairs with port != 0; "
           "netloc_fb cases whose first stage has the empty host. "
           "Distinct = distinct case encodings; the hot loops (2^24 three-byte strings per function, 6^8 eight-character texts) register one entry "
@@ -49,6 +59,8 @@ PROP = dict(
                  "the functions are pure functions of their arguments, hence reentrant: concurrent calls on different inputs each return the "
                  "single-threaded result for their own input (expected values: the in-harness references for base64/rot13/netloc; for the escapers "
                  "a single-threaded call that first passed the complete single-threaded oracle, so no particular hex-digit case is demanded)",
+                 "the results do not depend on process-wide state that is not an argument: the global C++ locale, the C locale (only C / C.UTF-8 / POSIX "
+                 "are installed here) and errno; a (pointer, size) range may sit at any address, have any length including 0, and nothing outside it is read",
                  "glibc isalnum() in the C locale for bytes >= 0x80 passed as negative char (escape_url)"],
     min_evaluations_quick=1000000,
     engine="rapidcheck + exhaustive enumerators; Hypothesis + serve shim",
